@@ -369,7 +369,7 @@ class TransformedPrior(Prior):
         else:
             # (the constant as it is, once per draw: np.repeat would flatten
             # an array-valued constant into its elements)
-            repeat = lambda x: [x] * size
+            repeat = lambda x: [x] * int(np.prod(size))
         # one draw per prior object, however often it occurs in the expression
         memo = {} if _memo is None else _memo
 
